@@ -5,6 +5,7 @@ import logging
 import os
 import shutil
 import tempfile
+import weakref
 
 import kiwipy
 import uuid
@@ -33,7 +34,7 @@ RULE = ('histories of 2-6 tasks from {create(persist), launch(persist, nowait), 
         '>=1 task was honoured and the model predicted a reply')
 RULE += ('; also: task types resembling launcher attributes, processes failing after recording a result, unpicklable processes, a second launcher on the same persister, tags never saved, a launcher built outside the serving loop')
 ASSUMPTIONS = ['the RabbitMQ transport is replaced by the in-process communicator of pv/comm.py', 'errors may arrive wrapped in RemoteException']
-REQUIRED = ['loader/ctx_only', 'log_records_formatted', 'redelivered_after_rejection', 'launcher_loader_of_its_own_class', 'paused_at_start_played', 'unknown_pid_kinds/str', 'unknown_pid_kinds/int', 'unknown_pid_kinds/UUID', 'unsaveable_persist_tasks', 'second_launcher_continues', 'late_failures', 'tasks/create', 'tasks/launch', 'tasks/continue', 'tasks/bogus', 'rejected', 'persisted_checks', 'nowait_replies', 'wait_replies', 'error_replies',
+REQUIRED = ['background_processes_checked', 'loader/ctx_only', 'log_records_formatted', 'redelivered_after_rejection', 'launcher_loader_of_its_own_class', 'paused_at_start_played', 'unknown_pid_kinds/str', 'unknown_pid_kinds/int', 'unknown_pid_kinds/UUID', 'unsaveable_persist_tasks', 'second_launcher_continues', 'late_failures', 'tasks/create', 'tasks/launch', 'tasks/continue', 'tasks/bogus', 'rejected', 'persisted_checks', 'nowait_replies', 'wait_replies', 'error_replies',
             'route/direct', 'route/thread', 'route/async', 'persister/none', 'persister/mem', 'persister/pickle', 'persister/failing', 'loader/custom',
             'loader/custom_ctx', 'continued_from_tag', 'traces_checked', 'killed_replies', 'launcher_built_elsewhere', 'absent_tag_with_untagged_checkpoint', 'counted_persister']
 BOUNDS = {'quick': '400 histories', 'thorough': '6000 histories'}
@@ -176,6 +177,24 @@ def _reply(fut):
             return ['error', 'ProgError', 'task-prog-fails' if 'task-prog-fails' in repr(exc) else '?']
         return ['error', type(e).__name__, str(e)[:80]]
     return ['result', _jsonable(fut.result())]
+
+
+class BackgroundWaiter(plumpy.Process):
+    """Waits until it is resumed.  Nothing of the harness refers to its instances (they are found through a weak set)."""
+    instances = weakref.WeakSet()
+
+    def __init__(self, *args, **kwargs):
+        super().__init__(*args, **kwargs)
+        BackgroundWaiter.instances.add(self)
+
+    def run(self):
+        return plumpy.Wait(self.done)
+
+    def done(self, *args):
+        return 5
+
+
+generated.register(BackgroundWaiter, 'BackgroundWaiter')
 
 
 class _StrictLogHandler(logging.Handler):
@@ -497,6 +516,30 @@ def run_case(case):
                 if p.state.value not in ('created',) and not getattr(p, '_pv_partial', False) and p in [m.get('proc') for m in made]:
                     viol.append(V('create-ran', 'create-ran:later', '%s: a process that was only created ran later (state %s)' % (label, p.state.value)))
             obs['custom_loads'] = c19.CountingLoader.loads
+            # a process launched without waiting belongs to the launcher that started it: it goes on in the background until it ends, also
+            # when it waits for a long time and nobody else holds on to it (no communicator, no reference kept by the sender)
+            if not viol:
+                import gc
+                BackgroundWaiter.instances.clear()
+                launcher3 = pc.ProcessLauncher(loop=loop)
+                t = loop.create_task(launcher3(None, pc.create_launch_body(BackgroundWaiter, nowait=True)))
+                drv.pump()
+                rep3 = _reply(t)
+                del t
+                for _ in range(2):
+                    gc.collect()
+                    drv.pump()
+                alive = list(BackgroundWaiter.instances)
+                obs['background_processes_checked'] = 1
+                if rep3[0] != 'result' or len(alive) != 1 or alive[0].state != ps.ProcessState.WAITING:
+                    viol.append(V('background-process-lost', 'background-process-lost', '%s: a waiting process launched without waiting (reply %s) is gone after a garbage '
+                                  'collection: %d instance(s) alive%s' % (label, rep3, len(alive), '' if not alive else ' in state %s' % alive[0].state)))
+                else:
+                    alive[0].resume()
+                    drv.pump()
+                    if alive[0].state != ps.ProcessState.FINISHED:
+                        viol.append(V('background-process-lost', 'background-process-lost:not-finished', '%s: the background process did not finish after its resume (%s)' % (label, alive[0].state)))
+                del alive
             # a second launcher in the same program, configured on its own: no loader argument, a persister that writes with a strict
             # custom loader (so the loader recorded in each checkpoint is the one to use).  What the first launcher did must not matter.
             if not viol:
